@@ -249,6 +249,36 @@ func RunC13I(r *sim.Run) {
 			r.Logf("advance 1s | stores %s leads %s", storeSet(), wantSet())
 		}
 	}
+	// ---- nothing of a lost shard lives on: every shard still led is lost now (one event
+	// after the other, then two leader checks); from then on this server writes nothing to
+	// the API any more - a store that was dropped is stopped, also one that was created
+	// twice at the moment leadership began
+	if !r.Violated() {
+		for s := 0; s < shards; s++ {
+			if leads[s] {
+				leads[s] = false
+				s := s
+				w.Sc.Go(fmt.Sprintf("final-lose%d", s), func() { elector.KgsimStopLeading(el, s) })
+				if !drive("final loss") {
+					return
+				}
+			}
+		}
+		for k := 0; k < 2; k++ {
+			w.Sc.Go(fmt.Sprintf("final-settle%d", k), func() { limiter.KgsimLeaderCheck(rp.RL) })
+			if !drive("final leader check") {
+				return
+			}
+		}
+		w.Advance(1500 * time.Millisecond) // writes under way end
+		before := w.Cond.NWrites()
+		w.Advance(3 * time.Second) // three periods of the periodic store
+		r.Checked("no_writes_after_every_shard_was_lost")
+		if n := w.Cond.NWrites() - before; n > 0 {
+			r.Violate("writes_after_leadership_lost", storeKind, "the server lost every shard (and two leader checks ran); in the 3 s that followed it still wrote %d rate-limit conditions to the API: a store of a lost shard is still alive", n)
+			return
+		}
+	}
 	r.SimSecs = w.Now().Seconds()
 	r.ProbeN("election_events", events)
 	r.ProbeN("rounds_with_overlap", overlaps)
